@@ -255,6 +255,9 @@ if rem > 8 {
 let mut k2 = read_u64_le ( & self . buf [ 8 .. rem ] ) ;
 proof {
 assert ( self . buf @ . subrange ( 8 , rem as int ) =~= tl . subrange ( 8 , tl . len ( ) as int ) ) ;
+assert forall | a : u64 , b : u64 | # [ trigger ] ( a ^ b ) == b ^ a by {
+assert ( a ^ b == b ^ a ) by ( bit_vector ) ;
+}
 }
 k2 = k2 . wrapping_mul ( C2 ) ;
 k2 = k2 . rotate_left ( 33 ) ;
@@ -265,6 +268,9 @@ let k1_len = rem . min ( 8 ) ;
 let mut k1 = read_u64_le ( & self . buf [ .. k1_len ] ) ;
 proof {
 assert ( self . buf @ . subrange ( 0 , k1_len as int ) =~= tl . subrange ( 0 , k1_len as int ) ) ;
+assert forall | a : u64 , b : u64 | # [ trigger ] ( a ^ b ) == b ^ a by {
+assert ( a ^ b == b ^ a ) by ( bit_vector ) ;
+}
 }
 k1 = k1 . wrapping_mul ( C1 ) ;
 k1 = k1 . rotate_left ( 31 ) ;
@@ -430,6 +436,9 @@ proof {
 assert ( Seq :: < u8 > :: empty ( ) + le_bytes8 ( seed ) =~= le_bytes8 ( seed ) ) ;
 }
 let ( h1 , _ ) = hasher . finish128 ( ) ;
+proof {
+assert ( h1 & 0xffff == h1 % 0x10000 && h1 & 0xffff == 0xffff & h1 ) by ( bit_vector ) ;
+}
 let seed_hash = ( h1 & 0xffff ) as u16 ;
 assert! ( seed_hash != 0 ) ;
 seed_hash }
